@@ -193,3 +193,12 @@ Theorem C03_served_object_independent_of_later_session : forall wn p d k a b,
   /\ exists m, w_log (fst (k a)) = (w_log a ++ [(m, p)])%list /\ w_log (fst (k b)) = (w_log b ++ [(m, p)])%list.
 Proof. exact served_object_independent_of_later_session. Qed.
 Print Assumptions C03_served_object_independent_of_later_session.
+
+(* ---- Round 4: credentials are compared AFTER the command line became text ----
+   closed obligation on today's source: parse_command decodes the line STRICTLY (no errors= argument: a byte sequence that
+   is invalid in the server encoding raises, nothing is silently dropped before the comparison) -- and, today, strips
+   trailing white space with str.rstrip() (finding F21: that is more than the line terminator) *)
+Theorem C03_command_line_decoded_strictly :
+  Gen.Handlers.parse_command_decode = ["line.decode(encoding=self.encoding).rstrip()"%string].
+Proof. vm_compute. reflexivity. Qed.
+Print Assumptions C03_command_line_decoded_strictly.
